@@ -30,8 +30,22 @@ def xcp(fallback=False):
     """Path of the xcp binary built from REPO's working tree with hooks enabled."""
     def go():
         if fallback:
+            # The workspace's own manifests keep libfs' default feature (use_linux) switched on whatever is passed on the
+            # command line, so "the build without the Linux backend" is made from a copy whose path dependencies say
+            # default-features = false; nothing else differs from the working tree.
+            import re, subprocess
+            src = os.path.join(BUILD, "fallback-src")
+            os.makedirs(src, exist_ok=True)
+            subprocess.run(["rsync", "-a", "--delete", "--exclude", "/target", "--exclude", "/.git", REPO + "/", src + "/"], check=True)
+            for rel in ("Cargo.toml", "libxcp/Cargo.toml"):
+                mp = os.path.join(src, rel)
+                txt = open(mp).read()
+                txt2 = re.sub(r'^(lib(?:fs|xcp) = \{[^}]*path = "[^"]*")( \})', r'\1, default-features = false\2', txt, flags=re.M)
+                if txt2 == txt:
+                    raise ToolError("could not switch off default features in " + rel)
+                open(mp, "w").write(txt2)
             target = os.path.join(BUILD, "hooks-fallback")
-            _run(["cargo", "build", "--offline", "--no-default-features", "--features", "parblock"], REPO, target)
+            _run(["cargo", "build", "--offline", "--no-default-features", "--features", "parblock"], src, target)
         else:
             target = os.path.join(BUILD, "hooks")
             _run(["cargo", "build", "--offline"], REPO, target)
